@@ -518,7 +518,7 @@ func (j *c03Judge) apply(st *c03State, o c03Op) bool {
 func (j *c03Judge) start(c *core.Ctx, t reflect.Type) *c03State {
 	n := model.Size(j.shape)
 	m := model.New(t, j.shape, gen.Ramp(t, n, 1))
-	op, err := gen.Build(m, j.src, c.Rng)
+	op, err := gen.BuildWith(m, j.src, c.Rng, engineFor(t))
 	if err != nil {
 		c.Inconclusive("operand-precondition:" + j.src)
 		return nil
